@@ -54,7 +54,10 @@ fn polling_loop(cfg: Arc<Mutex<Box<dyn ServerConfig>>>, socket: UdpSocket, queue
         let config = cfg.lock().unwrap();
 
         #[cfg(roughenough_verif)]
-        roughenough::verif::emit("w_lock", vec![]);
+        roughenough::verif::emit(
+            "w_lock",
+            vec![("lockseq", roughenough::verif::V::U(roughenough::verif::next_lock_seq()))],
+        );
 
         let server = Server::new(config.as_ref(), socket, queue);
 
